@@ -4,7 +4,7 @@
    known q h = bits [0,8q] and [57,63] of h = what a bucket keeps next to an element of class q. *)
 From Coq Require Import ZArith List.
 From MomoCommon Require Import GenPrelude.
-From C12 Require Gen_Base Gen_O2 Gen_O2MP Gen_P4 Gen_One Known P4_Model P4_Slot P4_Bucket O2_Slot Chain O2_Bucket MP_Open2N2 TableO2 TableO2_Proofs TableP4 TableP4_Proofs TableOne TableOne_Proofs Refuted TableO2_Find SameCode Gen_O2set TableP4_Find Gen_P4A P4A_Refine Gen_P4A16 P4A_Refine16 Chains PtrState Gen_Ptr32 Gen_Ptr48 Gen_Ptr64 GensFind.
+From C12 Require Gen_Base Gen_O2 Gen_O2MP Gen_P4 Gen_One Known P4_Model P4_Slot P4_Bucket O2_Slot Chain O2_Bucket MP_Open2N2 TableO2 TableO2_Proofs TableP4 TableP4_Proofs TableOne TableOne_Proofs Refuted TableO2_Find SameCode Gen_O2set TableP4_Find Gen_P4A P4A_Refine Gen_P4A16 P4A_Refine16 Chains PtrState Gen_Ptr32 Gen_Ptr48 Gen_Ptr64 GensFind Gen_HSFind Gen_HSFindIn HSFind_Refine.
 Import ListNotations.
 Local Open Scope Z_scope.
 
@@ -900,3 +900,120 @@ Theorem C12_limp4_find_after_throwing_migration :
     end.
 Proof. exact GensFind.pmigrate_gens_find. Qed.
 Print Assumptions C12_limp4_find_after_throwing_migration.
+
+(* Find across chained generations (Open2N2): the search loop is bounded by the bucket's own decoded maxProbe (< 2^64 by the
+   encoder invariant, so ++probe never wraps); never asserts or runs out of fuel; returns every key stored in ANY generation *)
+Theorem C12_open2n2_find_across_generations :
+  forall hash key gens, GensFind.gens_inv hash gens ->
+    (exists g, In g gens /\ TableO2_Proofs.Present (snd g) (fst g) key) ->
+    exists r, TableO2.find_gens gens key (hash key) = Ok (Some r) /\ GensFind.gens_hit gens key r.
+Proof. exact GensFind.find_gens_present. Qed.
+Print Assumptions C12_open2n2_find_across_generations.
+
+Theorem C12_open2n2_find_after_throwing_migration :
+  forall hash, (forall k, 0 <= hash k < 2 ^ 64) ->
+  forall newL budget, 0 <= newL <= 63 -> forall gens tnew calls,
+    TableO2_Proofs.gens_ok hash newL gens -> TableO2_Proofs.Tinv hash newL tnew ->
+    match TableO2.migrate_gens hash gens tnew newL budget calls with
+    | Ok (gens', tnew', _, _) =>
+        forall k, TableO2_Proofs.in_gens gens k \/ TableO2_Proofs.Present newL tnew k ->
+          exists r, TableO2.find_gens ((tnew', newL) :: rev gens') k (hash k) = Ok (Some r) /\
+                    GensFind.gens_hit ((tnew', newL) :: rev gens') k r
+    | Exn => True
+    | _ => False
+    end.
+Proof. exact GensFind.migrate_gens_find. Qed.
+Print Assumptions C12_open2n2_find_after_throwing_migration.
+
+(* HashSet::pvFind(key) GENERATED (Gen_HSFind.pvFindKey, HashSet.h:1043-1064): its walk over the chained bucket generations --
+   per-generation search, `break` on a non-null iterator, `buckets = buckets->GetNextBuckets()`, `break` at nullptr -- equals the
+   hand-written walk, for ANY per-generation search tf that is total, any iterator numbering enc with enc r = 0 only for the
+   null iterator, and up to 70 chained generations (each generation at least doubles the bucket count, so there are < 64).
+   Instantiation of the generated code's Section variables: generation i (0 = newest) lives at pointer i+1, nullptr = 0,
+   find_in = anything that agrees pointwise with enc of the per-generation search, buckets_next p = p+1 below the number of
+   generations, else 0. *)
+Theorem C12_hashset_find_walk_generated :
+  forall (A : Type) (tf : Z -> A -> outcome (option (Z * Z))) (enc : option (Z * Z) -> Z),
+    enc None = 0 -> (forall x, enc (Some x) <> 0) ->
+  forall (gens : list A) (hash_of : Z -> Z) (find_in : Z -> Z -> Z -> Z),
+    (forall ic p pred, find_in ic p pred = HSFind_Refine.find_in_of A tf enc gens ic p pred) ->
+    (forall h, Forall (fun a => exists r, tf h a = Ok r) gens) ->
+  forall mCount key ht pred, mCount <> 0 -> gens <> [] -> (length gens <= 70)%nat ->
+    Gen_HSFind.pvFindKey false hash_of find_in (HSFind_Refine.next_of A gens) mCount 1 key ht pred
+    = Ok (HSFind_Refine.encw enc (HSFind_Refine.walk A tf (hash_of key) gens)).
+Proof. exact HSFind_Refine.pvFindKey_walk. Qed.
+Print Assumptions C12_hashset_find_walk_generated.
+
+(* the per-generation search, static HashSet::pvFind(indexCode, buckets, itemPred) GENERATED (Gen_HSFindIn.pvFindIn,
+   HashSet.h:1066-1095: start bucket, then `for (probe = 1; bucket->WasFull() && probe <= maxProbe; ++probe)`), equals the
+   hand-written TableP4.pfind / TableO2.find / TableOne.ofind -- same result, same Stuck/Fuel behaviour -- when its Section
+   variables are the generated bucket-level leaves over the model table (bucket pointer = bucket index, a non-null iterator is
+   `it bucket slot`, never 0).  No invariant is needed: this is an equality of programs. *)
+Theorem C12_hashset_bucket_probing_generated_limp4 :
+  forall t L key (it : Z -> Z -> Z), (forall b s, it b s <> 0) -> forall h bks pred params,
+    HSFind_Refine.p4_findin t L key it h bks pred params =
+    match TableP4.pfind t L key h with Ok r => Ok (HSFind_Refine.encI it r) | Stuck => Stuck | Fuel => Fuel | Exn => Exn end.
+Proof. exact HSFind_Refine.p4_findin_refines. Qed.
+Print Assumptions C12_hashset_bucket_probing_generated_limp4.
+
+Theorem C12_hashset_bucket_probing_generated_open2n2 :
+  forall t L key (it : Z -> Z -> Z), (forall b s, it b s <> 0) -> forall h bks pred params,
+    HSFind_Refine.o2_findin t L key it h bks pred params =
+    match TableO2.find t L key h with Ok r => Ok (HSFind_Refine.encI it r) | Stuck => Stuck | Fuel => Fuel | Exn => Exn end.
+Proof. exact HSFind_Refine.o2_findin_refines. Qed.
+Print Assumptions C12_hashset_bucket_probing_generated_open2n2.
+
+Theorem C12_hashset_bucket_probing_generated_one :
+  forall t L key (it1 : Z -> Z), (forall b, it1 b <> 0) -> forall h bks pred params,
+    HSFind_Refine.one_findin t L key it1 h bks pred params =
+    match TableOne.ofind t L key h with Ok r => Ok (HSFind_Refine.encI1 it1 r) | Stuck => Stuck | Fuel => Fuel | Exn => Exn end.
+Proof. exact HSFind_Refine.one_findin_refines. Qed.
+Print Assumptions C12_hashset_bucket_probing_generated_one.
+
+(* both generated functions composed (pvFind(key) calling the generated pvFind(indexCode, *buckets, pred) on the generation the
+   pointer names) = the hand-written TableP4.pfind_gens, for LimP4 generations satisfying their invariant *)
+Theorem C12_hashset_find_generated_refines_limp4 :
+  forall H hash (it : Z -> Z -> Z), (forall b s, it b s <> 0) ->
+  forall key gens mCount ht pred, GensFind.pgens_inv H hash gens -> gens <> [] -> (length gens <= 70)%nat -> mCount <> 0 ->
+    Gen_HSFind.pvFindKey false hash (HSFind_Refine.p4_find_in it gens key) (HSFind_Refine.next_of _ gens) mCount 1 key ht pred
+    = Ok (HSFind_Refine.encw (HSFind_Refine.encI it) (TableP4.pfind_gens gens key (hash key))).
+Proof. exact HSFind_Refine.hsfind_p4_refines. Qed.
+Print Assumptions C12_hashset_find_generated_refines_limp4.
+
+(* ... so the generated Find returns a non-null iterator naming a slot that holds the key, for every key stored in any generation *)
+Theorem C12_hashset_find_generated_finds_present_limp4 :
+  forall H hash (it : Z -> Z -> Z), (forall b s, it b s <> 0) ->
+  forall key gens mCount ht pred, GensFind.pgens_inv H hash gens -> (length gens <= 70)%nat -> mCount <> 0 ->
+    (exists g, In g gens /\ TableP4_Proofs.PPresent (snd g) (fst g) key) ->
+    exists g b s,
+      Gen_HSFind.pvFindKey false hash (HSFind_Refine.p4_find_in it gens key) (HSFind_Refine.next_of _ gens) mCount 1 key ht pred
+      = Ok (it b s) /\ it b s <> 0 /\ GensFind.pgens_hit gens key (g, b, s).
+Proof. exact HSFind_Refine.hsfind_p4_present. Qed.
+Print Assumptions C12_hashset_find_generated_finds_present_limp4.
+
+(* the same for Open2N2 tables (TableO2.find_gens) *)
+Theorem C12_hashset_find_generated_refines_open2n2 :
+  forall hash (it : Z -> Z -> Z), (forall b s, it b s <> 0) ->
+  forall key gens mCount ht pred, GensFind.gens_inv hash gens -> gens <> [] -> (length gens <= 70)%nat -> mCount <> 0 ->
+    Gen_HSFind.pvFindKey false hash (HSFind_Refine.o2_find_in it gens key) (HSFind_Refine.next_of _ gens) mCount 1 key ht pred
+    = Ok (HSFind_Refine.encw (HSFind_Refine.encI it) (TableO2.find_gens gens key (hash key))).
+Proof. exact HSFind_Refine.hsfind_o2_refines. Qed.
+Print Assumptions C12_hashset_find_generated_refines_open2n2.
+
+Theorem C12_hashset_find_generated_finds_present_open2n2 :
+  forall hash (it : Z -> Z -> Z), (forall b s, it b s <> 0) ->
+  forall key gens mCount ht pred, GensFind.gens_inv hash gens -> (length gens <= 70)%nat -> mCount <> 0 ->
+    (exists g, In g gens /\ TableO2_Proofs.Present (snd g) (fst g) key) ->
+    exists g b s,
+      Gen_HSFind.pvFindKey false hash (HSFind_Refine.o2_find_in it gens key) (HSFind_Refine.next_of _ gens) mCount 1 key ht pred
+      = Ok (it b s) /\ it b s <> 0 /\ GensFind.gens_hit gens key (g, b, s).
+Proof. exact HSFind_Refine.hsfind_o2_present. Qed.
+Print Assumptions C12_hashset_find_generated_finds_present_open2n2.
+
+(* areItemsNothrowRelocatable: the generated walk stops after the newest generation (then pvRelocateItems never leaves an older one) *)
+Theorem C12_hashset_find_nothrow_relocatable_newest_only :
+  forall (A : Type) (gens : list A) (hash_of : Z -> Z) (find_in : Z -> Z -> Z -> Z) mCount key ht pred, mCount <> 0 ->
+    Gen_HSFind.pvFindKey true hash_of find_in (HSFind_Refine.next_of A gens) mCount 1 key ht pred
+    = Ok (find_in (hash_of key) 1 pred).
+Proof. exact HSFind_Refine.pvFindKey_nothrow. Qed.
+Print Assumptions C12_hashset_find_nothrow_relocatable_newest_only.
